@@ -296,6 +296,16 @@ pub fn start_node_inflight(fabric: &Fabric, seed: u64, idx: u16, cfg: Config, ma
     Ok(Node { net, addr, id, svc: shared, key })
 }
 
+/// a node at an arbitrary fabric address (e.g. an IPv6 one)
+pub fn start_node_at(fabric: &Fabric, addr: SocketAddr, key: [u8; 32], cfg: Config) -> anyhow::Result<Node> {
+    let sock = fabric.socket(addr);
+    let svc = Svc::new();
+    let shared = svc.shared();
+    let net = Network::bind("127.0.0.1:0").private_key(key).server_name("verif").config(cfg).verif_socket(sock).start(svc)?;
+    let id = net.peer_id();
+    Ok(Node { net, addr, id, svc: shared, key })
+}
+
 pub fn start_node(fabric: &Fabric, seed: u64, idx: u16, cfg: Config) -> anyhow::Result<Node> {
     start_node_with(fabric, idx, key_of(seed, idx), "verif", None, cfg)
 }
